@@ -10,7 +10,9 @@ class CollectList(Aggregation):
         self.items = []
 
     def merge(self, row, schema):
-        self.items.append(self.column.eval(row, schema))
+        value = self.column.eval(row, schema)
+        if value is not None:
+            self.items.append(value)
 
     def mergeStats(self, other, schema):
         self.items += other.items
@@ -31,7 +33,9 @@ class CollectSet(Aggregation):
         self.items = set()
 
     def merge(self, row, schema):
-        self.items.add(self.column.eval(row, schema))
+        value = self.column.eval(row, schema)
+        if value is not None:
+            self.items.add(value)
 
     def mergeStats(self, other, schema):
         self.items |= other.items
@@ -52,13 +56,15 @@ class SumDistinct(Aggregation):
         self.items = set()
 
     def merge(self, row, schema):
-        self.items.add(self.column.eval(row, schema))
+        value = self.column.eval(row, schema)
+        if value is not None:
+            self.items.add(value)
 
     def mergeStats(self, other, schema):
         self.items |= other.items
 
     def eval(self, row, schema):
-        return sum(self.items)
+        return sum(self.items) if self.items else None
 
     def args(self):
         return (self.column,)
